@@ -135,7 +135,7 @@ func (h *DatabaseHandle) Read(ctx context.Context, req *fuse.ReadRequest, resp *
 func (h *DatabaseHandle) Write(ctx context.Context, req *fuse.WriteRequest, resp *fuse.WriteResponse) error {
 	if err := h.node.db.WriteDatabaseAt(ctx, h.file, req.Data, req.Offset, uint64(req.LockOwner)); err != nil {
 		log.Printf("fuse: write(): database error: %s", err)
-		return err
+		return ToError(err)
 	}
 	resp.Size = len(req.Data)
 	return nil
